@@ -4,10 +4,10 @@ import numpy as np
 from harness import gamma
 from harness.gamma import NA, Palette
 
-ROWID = Palette("rowid", "int", list(range(16)), has_na=False, full_dtype=int)
+ROWID = Palette("rowid", "int", list(range(64)), has_na=False, full_dtype=int)
 ROWID_F = ROWID  # the row id may come back as float after NA filling; alpha uses ==
 
-KEY_PALETTES = [gamma.FLOAT_INF, gamma.FLOAT_BIG, gamma.FLOAT_HUGE, gamma.INT_SMALL, gamma.INT_BIG,
+KEY_PALETTES = [gamma.FLOAT_INF, gamma.FLOAT_BIG, gamma.FLOAT_HUGE, gamma.INT_SMALL, gamma.INT_BIG, gamma.UINT8,
                 gamma.STR_SHORT, gamma.STR_LONG, gamma.STR_MIXED, gamma.STR_FIXED, gamma.STR_ASTRAL,
                 gamma.DATE, gamma.DATETIME, gamma.TIMEDELTA, gamma.BOOL, gamma.BOOL_OBJ, gamma.BYTES,
                 gamma.OBJ_INT]
@@ -52,14 +52,31 @@ def observe(out, pals):
     return {"cols": cols, "cell": cell}
 
 
+NUMERIC_MIX = [gamma.INT_BIG, gamma.FLOAT_INF, gamma.FLOAT_BIG, gamma.INT_SMALL, gamma.UINT8]
+
+
 def choose_palettes(rng, fr, names, pool=None):
-    """A random palette per named key column among those that can represent its cells."""
+    """A random palette per named key column among those that can represent its cells.
+    One draw in four is restricted to the numeric palettes, so that mixed int/float key
+    tuples (where numeric fast paths and float casts live) are met often enough."""
     pool = pool or KEY_PALETTES
     res = {}
+    numeric = rng.random() < 0.25
     for c in names:
         ok = [p for p in pool if p.supports(fr["cell"][c])]
+        if numeric:
+            ok = [p for p in ok if p in NUMERIC_MIX] or ok
         res[c] = rng.choice(ok)
     return res
+
+
+def random_frame(rng, nrows, names=("k", "j"), nvals=3, p_na=0.2):
+    """A larger random frame for the record->validate direction (judged by the same trace spec)."""
+    cell = {}
+    for c in names:
+        cell[c] = [(-1 if rng.random() < p_na else 2 * rng.randrange(nvals)) for _ in range(nrows)]
+    cell["r"] = [2 * i for i in range(nrows)]
+    return {"cols": list(names) + ["r"], "cell": cell}
 
 
 def nontrivial(fr, names=("k", "j")):
